@@ -10,7 +10,9 @@ CONSTANTS
   DEV_AddRebuildsFirst = FALSE
   DEV_DeferredRemoveKeepsPolygon = FALSE
   DEV_ForkSharesLanelets = FALSE
-  ForkAll = TRUE
+  ForkAll = FALSE
   DEV_DrawMovesVertices = FALSE
+  DEV_RectKeepsExportedPolygon = FALSE
+  ShapeHist = FALSE
   DEV_DiscHalfRadius = FALSE
 INVARIANT Emit
